@@ -22,6 +22,8 @@ Every item TRANSLATES a piece of the current source into a Lean term (never comp
   fttools.fourier_resample         -> resamplePre / resamplePost (shift pair), resampleOut0/1 (axis length x zoom factor)
   RichData.r / .t, Slices polar cache, exact_x / exact_y, exact_xy -> three-valued facts richPolarBinds / slicesPolarBinds /
                                       exact1dBinds / exact2dBinds (which coordinate reaches which argument / interpolator axis)
+  coordinates.uniform_cart_to_polar + Slices.az* + estimate_size -> polarRhoAxis / polarPhiAxis / polarRhoLen / polarPhiLen,
+                                      azReduceAxes, estSizeAxes (which array axis is rho, which is phi, who reduces / searches along which)
   Wavefront.pad2d / Wavefront.crop -> three-valued facts: every parameter of the delegated call is bound to the
                                       like-named argument (keyword or positional spelling is irrelevant)
 
@@ -1333,6 +1335,76 @@ def generate(repo):
             res.append(verdict(got, {'array': 'wavefunction', 'Q': 'Q'}) if set(got) == {'array', 'Q'} else None)
         return all3(res)
     g.fact('focusPadBinds', 'prysm/propagation.py:focus,unfocus', focus_pad)
+
+    # ---- polar resampling index glue: uniform_cart_to_polar lays rho along one axis and phi along the other (meshgrid), the
+    #      azimuthal statistics of Slices reduce over the phi axis and estimate_size searches along the rho axis
+    def polar_axes():
+        fn = get_def(co, 'uniform_cart_to_polar')
+        lens = {}
+        for nm in ('rho', 'phi'):
+            v = find_assign(fn, nm, which=-1)
+            if not (isinstance(v, ast.Call) and last_attr(v.func) == 'linspace' and len(v.args) == 3):
+                raise Untranslatable(f'{nm} is not a linspace')
+            lens[nm] = Tr({'len(x)': 'n', 'len(y)': 'm', 'x.size': 'n', 'y.size': 'm', 'x.shape[0]': 'n', 'y.shape[0]': 'm'}).expr(v.args[2])
+            if nm == 'rho' and ast.unparse(v.args[0]) not in ('0', '0.0'):
+                raise Untranslatable('rho does not start at 0')
+        mg = [st for st in fn.body if isinstance(st, ast.Assign) and isinstance(st.value, ast.Call) and last_attr(st.value.func) == 'meshgrid']
+        if len(mg) != 1 or len(mg[0].value.args) != 2 or not isinstance(mg[0].targets[0], ast.Tuple):
+            raise Untranslatable('meshgrid form')
+        kw = {k.arg: ast.unparse(k.value) for k in mg[0].value.keywords}
+        if set(kw) - {'indexing'}:
+            raise Untranslatable('meshgrid keywords')
+        ij = kw.get('indexing', "'xy'") == "'ij'"
+        a = [ast.unparse(e) for e in mg[0].value.args]
+        if sorted(a) != ['phi', 'rho']:
+            raise Untranslatable('meshgrid arguments')
+        # numpy: 'xy': out[i, j] = a0[j] (both outputs have a0 along axis 1); 'ij': a0 along axis 0
+        axis_of = {a[0]: 0 if ij else 1, a[1]: 1 if ij else 0}
+        tg = [ast.unparse(t) for t in mg[0].targets[0].elts]
+        (p2c,) = find_calls(fn, 'polar_to_cart')
+        b = {k: ast.unparse(v) for k, v in bind_call(p2c, get_def(co, 'polar_to_cart')).items()}
+        if b != {'rho': tg[a.index('rho')], 'phi': tg[a.index('phi')]}:
+            raise Untranslatable('polar_to_cart is not given (mesh of rho, mesh of phi)')
+        out = [f'def polarRhoAxis : Int := ({axis_of["rho"]} : Int)', f'def polarPhiAxis : Int := ({axis_of["phi"]} : Int)',
+               f'def polarRhoLen (m n : Int) : Int := {lens["rho"]}', f'def polarPhiLen (m n : Int) : Int := {lens["phi"]}']
+        # Slices.az*: the axis every statistic reduces over
+        names = ('azavg', 'azmedian', 'azmin', 'azmax', 'azpv', 'azvar', 'azstd')
+        own = {}
+        for prop in names:
+            (f_,) = [n_ for n_ in get_def(rd, 'Slices').body if isinstance(n_, ast.FunctionDef) and n_.name == prop]
+            red_calls = [c for c in ast.walk(f_) if isinstance(c, ast.Call) and last_attr(c.func).startswith('nan')
+                         and c.args and ast.unparse(c.args[0]) == 'self._source_polar']
+            own[prop] = ({ast.unparse(k.value) for c in red_calls for k in c.keywords if k.arg == 'axis'}
+                         | {ast.unparse(c.args[1]) for c in red_calls if len(c.args) > 1},
+                         {n_.attr for n_ in ast.walk(f_) if isinstance(n_, ast.Attribute) and ast.unparse(n_.value) == 'self' and n_.attr in names})
+        red = []
+        for prop in names:
+            axes = set(own[prop][0])
+            for dep in own[prop][1]:                # a statistic built from other statistics (azpv = azmax - azmin) inherits their axis
+                axes |= own[dep][0]
+            if len(axes) != 1:
+                raise Untranslatable(f'{prop}: reduction axis')
+            red.append(f'({int(axes.pop())} : Int)')
+        out.append(f'def azReduceAxes : List Int := [{", ".join(red)}]')
+        # estimate_size: argmax along ..., mask.shape[...]
+        es = get_def(psf, 'estimate_size')
+        ax = sorted({ast.unparse(k.value) for c in ast.walk(es) if isinstance(c, ast.Call) and last_attr(c.func) == 'argmax'
+                     for k in c.keywords if k.arg == 'axis'})
+        shp = sorted({ast.unparse(n_.slice) for n_ in ast.walk(es) if isinstance(n_, ast.Subscript) and ast.unparse(n_.value) == 'mask.shape'})
+        rev = [n_ for n_ in ast.walk(es) if isinstance(n_, ast.Subscript) and ast.unparse(n_.value) == 'mask' and isinstance(n_.slice, ast.Tuple)]
+        if len(ax) != 1 or len(shp) != 1 or len(rev) != 1:
+            raise Untranslatable('estimate_size: search axis')
+        revax = [k for k, e in enumerate(rev[0].slice.elts) if isinstance(e, ast.Slice) and e.step is not None and ast.unparse(e.step) == '-1']
+        if len(revax) != 1:
+            raise Untranslatable('estimate_size: reversed axis')
+        out.append(f'def estSizeAxes : List Int := [({int(ax[0])} : Int), ({int(shp[0])} : Int), ({revax[0]} : Int)]')
+        return '\n'.join(out)
+    g.item('polar.axes', 'prysm/coordinates.py:uniform_cart_to_polar; Slices.az*; psf.estimate_size',
+           lambda: get_def(co, 'uniform_cart_to_polar'), polar_axes,
+           f'def polarRhoAxis : Int := {M}.polarRhoAxis\ndef polarPhiAxis : Int := {M}.polarPhiAxis\n'
+           f'def polarRhoLen (m n : Int) : Int := {M}.polarRhoLen m n\ndef polarPhiLen (m n : Int) : Int := {M}.polarPhiLen m n\n'
+           f'def azReduceAxes : List Int := List.replicate 7 {M}.polarPhiAxis\n'
+           f'def estSizeAxes : List Int := List.replicate 3 {M}.polarRhoAxis')
 
     return g.finish()
 
